@@ -135,6 +135,7 @@ def check(prog, rep):
                    f"{sorted(set(b[0] - a[0] for a, b in zip(runs, runs[1:])))} (required {s}); two points closer than the cell size therefore "
                    "lie in the same or adjacent cells", wa)
 
+    rule_query_radius(prog, rep)
     # ------------------------------------------------------------------ R2 typestate
     r2 = rep.rule("R2", "an atom is out of its bucket when moved or deleted, and back in afterwards", floor=10)
     n_sites = 0
@@ -149,6 +150,72 @@ def check(prog, rep):
     r2.add("epoch-end|cleanup", bool(hr_calls) and hr_calls[-1] == "hydrogen_routines.cleanup",
            f"calls on the optimisation/debump objects in non_trivial, in order: {hr_calls}; cleanup must be the last",
            f"pdb2pqr/main.py:{nt.lineno} (non_trivial)")
+
+
+def _upper(expr, fn, consts, depth=0):
+    """Upper bound of a cutoff expression built from constants (sums, conditional choices, locals bound to such), or None."""
+    v = try_fold(expr, consts)
+    if isinstance(v, (int, float)) and not isinstance(v, bool):
+        return float(v)
+    if depth > 4:
+        return None
+    if isinstance(expr, ast.BinOp) and isinstance(expr.op, ast.Add):
+        a, b = _upper(expr.left, fn, consts, depth + 1), _upper(expr.right, fn, consts, depth + 1)
+        return a + b if a is not None and b is not None else None
+    if isinstance(expr, ast.IfExp):
+        a, b = _upper(expr.body, fn, consts, depth + 1), _upper(expr.orelse, fn, consts, depth + 1)
+        return max(a, b) if a is not None and b is not None else None
+    if isinstance(expr, ast.Name):
+        defs = [s_.value for s_ in iter_stmts(fn.body) if isinstance(s_, ast.Assign) and any(isinstance(t_, ast.Name) and t_.id == expr.id for t_ in s_.targets)]
+        if not defs:
+            return None
+        ub = [_upper(d, fn, consts, depth + 1) for d in defs]
+        return max(ub) if all(u is not None for u in ub) else None
+    return None
+
+
+def rule_query_radius(prog, rep):
+    """A fixed-radius filter applied to the result of a neighbour query only sees pairs in adjacent cells: the radius must
+    not exceed the size of the cells the query runs on."""
+    r = rep.rule("R4", "every fixed distance cutoff applied to neighbour-query results is at most the cell size in use", floor=3)
+    consts = dict(prog.module_constants("config.py"))
+    size_of = {}  # module -> smallest cell size its queries can run on
+    for key, f in prog.funcs.items():
+        for c in calls_in(f.node):
+            if U(c.func) in ("cells.Cells", "Cells") and c.args:
+                v = try_fold(c.args[0], prog.module_constants(f.module.rel) | consts)
+                if not isinstance(v, (int, float)):
+                    raise AnalysisError(f"Cells({U(c.args[0])}) in {key}: cell size does not fold to a constant")
+                size_of.setdefault(f.module.rel, []).append(v)
+    if not size_of:
+        raise AnalysisError("no instantiation of cells.Cells found")
+    all_sizes = [v for vs in size_of.values() for v in vs]
+    hyd_sizes = [v for rel, vs in size_of.items() if rel.startswith("hydrogens/") for v in vs] or all_sizes
+    n = 0
+    for key, f in sorted(prog.funcs.items()):
+        if f.module.rel not in SCOPE or not any(isinstance(c.func, ast.Attribute) and c.func.attr == "get_near_cells" for c in calls_in(f.node)):
+            continue
+        # the debumper's queries run on its own cells and on the optimisation's larger ones: the smaller size is the bound
+        size = min(hyd_sizes) if f.module.rel.startswith("hydrogens/") else min(all_sizes)
+        fconsts = consts | prog.module_constants(f.module.rel)
+        dvars = {U(s_.targets[0]) for s_ in iter_stmts(f.node.body) if isinstance(s_, ast.Assign) and isinstance(s_.value, ast.Call)
+                 and U(s_.value.func).split(".")[-1] == "distance"}
+        for cmpn in [x for x in walk_no_defs(f.node) if isinstance(x, ast.Compare) and len(x.ops) == 1]:
+            left, right, op = cmpn.left, cmpn.comparators[0], cmpn.ops[0]
+            if U(left) in dvars and isinstance(op, (ast.Lt, ast.LtE)):
+                bound = _upper(right, f.node, fconsts)
+            elif U(right) in dvars and isinstance(op, (ast.Gt, ast.GtE)):
+                bound = _upper(left, f.node, fconsts)
+            else:
+                continue
+            if bound is None:
+                continue  # a running minimum ("closest neighbour"), not a fixed radius
+            n += 1
+            r.add(f"radius|{key}:{U(cmpn)[:40]}", bound <= size,
+                  f"{U(cmpn)}: cutoff at most {bound:g} A on a query over cells of {size:g} A" +
+                  ("" if bound <= size else " -- pairs between the cell size and the cutoff that fall in non-adjacent cells are never returned, so the "
+                   "filtered result is not the brute-force result"), f"pdb2pqr/{f.module.rel}:{cmpn.lineno} ({f.qual})")
+    r.info["filters"] = n
 
 
 def key_code(cells, ac, comp, axis):
